@@ -56,6 +56,9 @@ def elem_of(kind, rid):
 # ------------------------------------------------------------------------------------------------
 # queries
 # ------------------------------------------------------------------------------------------------
+BIG = 10 ** 6
+
+
 def query_product(thorough):
     """list of (xs_start, xs_stop, ys_start, ys_stop) with None = omitted"""
     ends = [-1, 1, 2, 4, 5] if not thorough else [-1, 0, 1, 2, 3, 4, 5]
@@ -84,6 +87,12 @@ def query_product(thorough):
         qs.append((x0 + e, x1 - e, y0 + e, y1 - e))
         qs.append((x0 - e, x1 + e, y0 - e, y1 + e))
         qs.append((x0 + e, None, None, y1 - e))
+    # explicit infinite slice ends (half planes, strips, the whole plane)
+    inf = float("inf")
+    for q in rep[:5]:
+        x0, x1, y0, y1 = q
+        qs += [(x0, inf, y0, y1), (-inf, x1, -inf, inf), (-inf, inf, y0, y1), (inf, x0, y1, -inf), (-inf, inf, -inf, inf),
+               (x0, inf, None, y1)]
     return qs
 
 
@@ -226,6 +235,7 @@ def make_check(col, kind, subtype, T, thorough):
         box = effective_box(q, ext)
         if box is None:
             return "empty"
+        box = tuple(BIG if v == float("inf") else (-BIG if v == float("-inf") else v) for v in box)   # beyond all lattice data
         if kind not in ("point", "multipoint") and (box[0] == box[2] or box[1] == box[3]):
             return None          # outside the guarantee (degenerate box for line/polygon kinds)
         out = []
@@ -266,6 +276,11 @@ def make_check(col, kind, subtype, T, thorough):
             col.violation(f"{kind}.cx.raises", case, f"cx{q} on {st.cont} rows {[r[0] for r in st.rows]} sindex={si}: "
                           f"{type(ex).__name__}: {str(ex)[:200]}", cont=st.cont, sindex=si is not None)
             return
+        typ_ok = {"array": type(geom_array(st)).__name__, "series": "GeoSeries", "frame": "GeoDataFrame"}[st.cont]
+        if type(res).__name__ != typ_ok:
+            col.violation(f"{kind}.cx.type", case, f"cx{q} on {st.cont} rows {[r[0] for r in st.rows]} sindex={si}: result type "
+                          f"{type(res).__name__} expected {typ_ok}", cont=st.cont)
+            return
         got = observed_rows(st, res, kind, pyl)
         want = [want_tuple(st, r) for r in exp]
         if si is not None:
@@ -276,9 +291,6 @@ def make_check(col, kind, subtype, T, thorough):
             col.violation(f"{kind}.cx", case,
                           f"cx{q} on {st.cont} rows {[r[0] for r in st.rows]} sindex={si}: got {[g[1] if g[1] is not None else g[0] for g in got]} "
                           f"expected {[w[1] if w[1] is not None else w[0] for w in want]}", cont=st.cont, sindex=si is not None)
-        typ_ok = {"array": type(geom_array(st)).__name__, "series": "GeoSeries", "frame": "GeoDataFrame"}[st.cont]
-        if type(res).__name__ != typ_ok:
-            col.violation(f"{kind}.cx.type", case, f"result type {type(res).__name__} expected {typ_ok}", cont=st.cont)
 
     def full_invariant(st, hist):
         for q in queries:
